@@ -35,9 +35,56 @@ func jsNum(f float64) string {
 	return strconv.FormatFloat(f, 'g', -1, 64)
 }
 
-// Src renders a JavaScript expression that builds the value (fresh objects on every evaluation).
-// Object graphs with sharing or cycles must carry their own Src override on the root object.
+// Src renders a JavaScript expression that builds the value (fresh objects on every evaluation). Object
+// identity is preserved: an object (or function) that is reachable through more than one path - a DAG, not a
+// tree - is bound to a variable once and referenced from every position. Cyclic graphs must carry their own
+// Src override on the root object (an object with an override is opaque).
 func Src(v Value) string {
+	if v.K != KObject {
+		return (&srcGen{}).val(v)
+	}
+	g := &srcGen{names: map[*Object]string{}}
+	counts := map[*Object]int{}
+	var order []*Object // post-order of first visits: dependencies first
+	var walk func(o *Object)
+	walk = func(o *Object) {
+		counts[o]++
+		if counts[o] > 1 {
+			return
+		}
+		if o.Src == "" {
+			for _, p := range o.Props {
+				if p.Val.K == KObject && !p.Accessor {
+					walk(p.Val.O)
+				}
+			}
+			if o.Target != nil {
+				walk(o.Target)
+			}
+		}
+		order = append(order, o)
+	}
+	walk(v.O)
+	var defs strings.Builder
+	for _, o := range order {
+		if counts[o] > 1 {
+			body := g.obj(o) // uses the names of the shared objects defined so far
+			name := "s" + strconv.Itoa(len(g.names))
+			g.names[o] = name
+			defs.WriteString("var " + name + "=" + body + ";")
+		}
+	}
+	if defs.Len() == 0 {
+		return g.obj(v.O)
+	}
+	return "(function(){" + defs.String() + "return " + g.val(v) + "})()"
+}
+
+type srcGen struct {
+	names map[*Object]string
+}
+
+func (g *srcGen) val(v Value) string {
 	switch v.K {
 	case KUndefined:
 		return "undefined"
@@ -57,7 +104,14 @@ func Src(v Value) string {
 	case KSymbol:
 		return "Symbol(" + JSStr(v.S) + ")"
 	}
-	o := v.O
+	if n, ok := g.names[v.O]; ok {
+		return n
+	}
+	return g.obj(v.O)
+}
+
+// obj renders the construction of o itself (never a reference to o).
+func (g *srcGen) obj(o *Object) string {
 	if o.Src != "" {
 		return o.Src
 	}
@@ -67,11 +121,11 @@ func Src(v Value) string {
 	case ClsString:
 		return "new String(" + JSStr(o.Prim.S) + ")"
 	case ClsBoolean:
-		return "new Boolean(" + Src(o.Prim) + ")"
+		return "new Boolean(" + g.val(o.Prim) + ")"
 	case ClsSymbol, ClsBigInt:
-		return "Object(" + Src(o.Prim) + ")"
+		return "Object(" + g.val(o.Prim) + ")"
 	case ClsProxy:
-		return "new Proxy(" + Src(Obj(o.Target)) + ",{})"
+		return "new Proxy(" + g.val(Obj(o.Target)) + ",{})"
 	case ClsFunction:
 		return "function(){}"
 	case ClsArray:
@@ -84,7 +138,7 @@ func Src(v Value) string {
 				simple = false
 				break
 			}
-			elems[idx] = Src(p.Val)
+			elems[idx] = g.val(p.Val)
 		}
 		if simple && o.Length < 64 {
 			s := "[" + strings.Join(elems, ",")
@@ -93,7 +147,7 @@ func Src(v Value) string {
 			}
 			return s + "]"
 		}
-		return buildSrc(o, "[]")
+		return g.build(o, "[]")
 	}
 	simple := o.SymProps == 0
 	for _, p := range o.Props {
@@ -114,23 +168,24 @@ func Src(v Value) string {
 				sb.WriteString(JSStr(p.Key))
 			}
 			sb.WriteByte(':')
-			sb.WriteString(Src(p.Val))
+			sb.WriteString(g.val(p.Val))
 		}
 		sb.WriteString("})")
 		return sb.String()
 	}
-	return buildSrc(o, "{}")
+	return g.build(o, "{}")
 }
 
-func buildSrc(o *Object, init string) string {
+func (g *srcGen) build(o *Object, init string) string {
 	var sb strings.Builder
 	sb.WriteString("(function(){var o=" + init + ";")
 	for _, p := range o.Props {
 		switch {
 		case p.Accessor:
+			// the getter builds a fresh value on every call
 			fmt.Fprintf(&sb, "Object.defineProperty(o,%s,{get:function(){return %s},enumerable:%v,configurable:true});", JSStr(p.Key), Src(p.Val), !p.Hidden)
 		default:
-			fmt.Fprintf(&sb, "Object.defineProperty(o,%s,{value:%s,writable:true,enumerable:%v,configurable:true});", JSStr(p.Key), Src(p.Val), !p.Hidden)
+			fmt.Fprintf(&sb, "Object.defineProperty(o,%s,{value:%s,writable:true,enumerable:%v,configurable:true});", JSStr(p.Key), g.val(p.Val), !p.Hidden)
 		}
 	}
 	for i := 0; i < o.SymProps; i++ {
